@@ -1,6 +1,7 @@
 open BinNums
 open BinPosDef
 open Datatypes
+open Nat
 
 module Pos =
  struct
@@ -160,6 +161,25 @@ module Pos =
     | Coq_xH -> (match q with
                  | Coq_xH -> true
                  | _ -> false)
+
+  (** val iter_op : ('a1 -> 'a1 -> 'a1) -> positive -> 'a1 -> 'a1 **)
+
+  let rec iter_op op p a =
+    match p with
+    | Coq_xI p0 -> op a (iter_op op p0 (op a a))
+    | Coq_xO p0 -> iter_op op p0 (op a a)
+    | Coq_xH -> a
+
+  (** val to_nat : positive -> nat **)
+
+  let to_nat x =
+    iter_op Nat.add x (S O)
+
+  (** val of_succ_nat : nat -> positive **)
+
+  let rec of_succ_nat = function
+  | O -> Coq_xH
+  | S x -> succ (of_succ_nat x)
 
   (** val eq_dec : positive -> positive -> bool **)
 
